@@ -1,7 +1,7 @@
 (* C18 -- Actions are well-formed value objects
    Property theorems only: each proof is one application of a lemma proved in Proofs/, followed by Print Assumptions. *)
 From Coq Require Import ZArith List Bool.
-From CS Require Repr Ops RevConv RevBridge4 RevolveRun DiskRun OnlineWF HRevRun HRevTop.
+From CS Require Repr Ops RevConv RevBridge4 RevolveRun DiskRun OnlineWF HRevRun HRevTop TLWF.
 From CS Require Import Actions NAdvance Multistage Exec Sched RunFacts Projections BasicInv MultistageRun AllocTotal TLBridge MixBridge.
 Import ListNotations.
 Open Scope Z_scope.
@@ -108,6 +108,21 @@ Theorem C18_basic_wf_every_history :
 Proof. exact (@OnlineWF.basic_wf_every_history). Qed.
 Print Assumptions C18_basic_wf_every_history.
 End M_C18_basic_wf_every_history.
+
+(* TwoLevelCheckpointSchedule (period >= 1, binomial_snapshots >= 0, binomial storage RAM or DISK, both trajectories) under EVERY history: every yielded action is well formed -- an accepted finalize(k), wherever it comes, puts the object in the state of the canonical run for max_n = k *)
+Module M_C18_twolevel_wf_every_history.
+Import TLWF.
+Theorem C18_twolevel_wf_every_history :
+  forall (P bs : Z) (bst : Actions.storage) (tj : NAdvance.traj),
+         1 <= P ->
+         0 <= bs ->
+         bst = Actions.RAM \/ bst = Actions.DISK ->
+         forall (p : Exec.xparams) (ops : list Sched.op) (o0 : Sched.obs) (m : Sched.mon)
+           (ls : list Sched.line),
+         Sched.run_case (Sched.PTwo P bs bst tj) p ops = Actions.Ok (o0, m, ls) -> Forall OnlineWF.wf_line ls.
+Proof. exact (@TLWF.twolevel_wf_every_history). Qed.
+Print Assumptions C18_twolevel_wf_every_history.
+End M_C18_twolevel_wf_every_history.
 
 (* wf_action is exactly what the executor needs not to report E_malformed *)
 Module M_C18_wf_not_malformed.
